@@ -127,8 +127,22 @@ func runC30(c *Ctx) {
 				cal := callee(f.Info, call)
 				return cal != nil && cal.Name() == "RemoveGrain"
 			}
+			// claimed: the boolean first result of ensureGrainOwnership / tryClaimGrain
+			claimedVars := map[types.Object]bool{}
+			ast.Inspect(fn.Decl.Body, func(nd ast.Node) bool {
+				if as, ok := nd.(*ast.AssignStmt); ok && len(as.Rhs) == 1 && len(as.Lhs) >= 2 {
+					if call, ok := as.Rhs[0].(*ast.CallExpr); ok {
+						if cal := callee(f.Info, call); cal == own || cal == claim {
+							if o := objOf(f.Info, as.Lhs[0]); o != nil {
+								claimedVars[o] = true
+							}
+						}
+					}
+				}
+				return true
+			})
 			notClaimed := f.EdgesWhere(func(cond ast.Expr) (bool, bool) {
-				if id, ok := cond.(*ast.Ident); ok && id.Name == "claimed" {
+				if id, ok := cond.(*ast.Ident); ok && claimedVars[f.Info.ObjectOf(id)] {
 					return true, false
 				}
 				return false, false
@@ -214,8 +228,11 @@ func runC30(c *Ctx) {
 			return cal != nil && cal.Name() == "RemoveGrain"
 		}
 		activatedHere := f.EdgesWhere(func(cond ast.Expr) (bool, bool) {
-			if id, ok := cond.(*ast.Ident); ok && id.Name == "activatedHere" {
-				return true, true
+			// activatedHere: the last (boolean) parameter of finalizeGrainActivation
+			if ps := fg.Obj.Type().(*types.Signature).Params(); ps.Len() > 0 {
+				if id, ok := cond.(*ast.Ident); ok && f.Info.ObjectOf(id) == types.Object(ps.At(ps.Len()-1)) {
+					return true, true
+				}
 			}
 			return false, false
 		})
